@@ -175,6 +175,15 @@ def install(world):
         return V(NODE, next_element(node_arg(eng, args[0], node)))
     world.add_prim('next_element', p_next_element, VT.next_element)
 
+    def _mk_unesc(attr):
+        def p(eng, args, st, node):
+            import soupsieve.css_parser as cp
+            pid = world.rx.pid(getattr(cp, attr))[0]
+            return V(STR, world.rx.sub_cb(z3.IntVal(pid), eng.coerce(args[0], STR, node).term))
+        return p
+    world.add_prim('unesc_plain', _mk_unesc('RE_CSS_ESC'), VT.unesc_plain)
+    world.add_prim('unesc_string', _mk_unesc('RE_CSS_STR_ESC'), VT.unesc_string)
+
     def _ls_pid():
         import soupsieve.util as su
         return world.rx.pid(su.RE_PATTERN_LINE_SPLIT)[0]
